@@ -19,12 +19,12 @@ type idOp struct {
 }
 
 type idCase struct {
-	Parallel  bool   `json:"parallel"`  // UseParallelIDGenerator
-	Explicit  bool   `json:"explicit"`  // call Use...() first, else lazy creation
-	Gs        int    `json:"gs"`        // concurrent callers (0: sequential history)
-	PerG      []int  `json:"per_g"`     // IDs drawn by each caller
-	Cache     []bool `json:"cache"`     // caller keeps the generator it got first
-	Ops       []idOp `json:"ops"`       // sequential history
+	Parallel  bool   `json:"parallel"` // UseParallelIDGenerator
+	Explicit  bool   `json:"explicit"` // call Use...() first, else lazy creation
+	Gs        int    `json:"gs"`       // concurrent callers (0: sequential history)
+	PerG      []int  `json:"per_g"`    // IDs drawn by each caller
+	Cache     []bool `json:"cache"`    // caller keeps the generator it got first
+	Ops       []idOp `json:"ops"`      // sequential history
 	SchedSeed uint64 `json:"sched_seed"`
 	Decisions []int  `json:"decisions,omitempty"`
 }
@@ -185,8 +185,8 @@ func execC41(c idCase, env *kit.Env) kit.Outcome {
 	}
 
 	// concurrent callers under the scheduler
-	rng := kit.NewRand(c.SchedSeed)
-	s := &sched.Sched{Choose: sched.ListChooser(c.Decisions, rng.Intn), MaxSteps: 20000}
+	s := &sched.Sched{MaxSteps: 20000}
+	s.Choose = sched.ListChooser(c.Decisions, sched.MixedChooser(c.SchedSeed, s))
 
 	if c.Decisions != nil {
 		s.Choose = sched.ListChooser(c.Decisions, nil)
